@@ -15,19 +15,23 @@
    ([mem_of_list 0 x]).  The models' range hypotheses (the input is a byte string, 0 < n < 2^31) cannot be premises of
    [blk_contract] (it quantifies over every list), so they are a GUARD of the instance: outside them it returns None
    (= "the compressor returned 0", block stored raw).  LZ4F blocks are at most 4 MB of bytes, so the guard never fires in
-   a real session.  The instance also returns None if the model's output were not a byte string (it always is: proved
-   for the fast path upstream, and every model is tied byte-for-byte to the C code; this makes [blk_bytes] immediate). *)
+   a real session.  There is NO run-time check of the output: that the models' outputs are byte strings is proved
+   (FastApiSound for the fast path, Proofs.ParserBytes for LZ4MID / hash chain / optimal), which gives [blk_bytes]. *)
 From Coq Require Import ZArith List Lia Bool.
 From LZ4V Require Import Gen.Consts Spec.BlockSpec Model.Mem Model.Fast Model.FastApi Model.HcMid Model.HcMidApi
      Model.HcChain Model.HcChainApi Model.HcOpt Model.HcOptApi Model.FrameC.
 From LZ4V Require Import Proofs.BlockHistExt Proofs.FastStreamMem Proofs.FastApiSound Proofs.HcMidApiSound
-     Proofs.HcChainSearch Proofs.HcChainApiSound Proofs.HcOptApiSound Proofs.FrameCTheorems Proofs.FrameRoundTrip.
+     Proofs.HcChainSearch Proofs.HcChainApiSound Proofs.HcOptApiSound Proofs.ParserBytes Proofs.FrameCTheorems Proofs.FrameRoundTrip.
 Import ListNotations.
 Local Open Scope Z_scope.
 
 (* ---- glue ---- *)
 Definition blk_guard (x : list byte) : bool := bytes_ok x && (0 <? len x) && (len x <? 2147483648).
-Definition blk_out (ret : Z) (out : list byte) : option (list byte) := if (0 <? ret) && bytes_ok out then Some out else None.
+Definition blk_out (ret : Z) (out : list byte) : option (list byte) := if 0 <? ret then Some out else None.
+(* the former, guarded form (output checked at run time); [blk_out_guard_true]: the guard always passes on byte outputs *)
+Definition blk_out_g (ret : Z) (out : list byte) : option (list byte) := if (0 <? ret) && bytes_ok out then Some out else None.
+Lemma blk_out_guard_true ret out : bytes_ok out = true -> blk_out_g ret out = blk_out ret out.
+Proof. intros H. unfold blk_out_g, blk_out. rewrite H, andb_true_r. reflexivity. Qed.
 
 Lemma bytes_list_ok x : bytes_ok x = true -> list_ok x.
 Proof.
@@ -43,9 +47,14 @@ Qed.
 Lemma load_of_list x : load_list (mem_of_list 0 x) 0 (Z.to_nat (len x)) = x.
 Proof. unfold len, mem_of_list. rewrite Nat2Z.id. apply load_store_same. Qed.
 
-Lemma blk_out_some ret out c : blk_out ret out = Some c -> 0 < ret /\ c = out /\ bytes_ok c = true.
+Lemma blk_out_some ret out c : blk_out ret out = Some c -> 0 < ret /\ c = out.
 Proof.
-  unfold blk_out. destruct ((0 <? ret) && bytes_ok out) eqn:E; [|discriminate].
+  unfold blk_out. destruct (0 <? ret) eqn:E; [|discriminate].
+  intros H; inversion H; subst. split; [lia | reflexivity].
+Qed.
+Lemma blk_out_g_some ret out c : blk_out_g ret out = Some c -> 0 < ret /\ c = out /\ bytes_ok c = true.
+Proof.
+  unfold blk_out_g. destruct ((0 <? ret) && bytes_ok out) eqn:E; [|discriminate].
   intros H; inversion H; subst. apply andb_true_iff in E. destruct E as [E1 E2]. split; [lia | split; [reflexivity | exact E2]].
 Qed.
 
@@ -96,7 +105,7 @@ Qed.
 Theorem blk_fast_contract st level : (forall n, ctx_ok (st n)) -> blk_contract strict_valid (blk_fast st level).
 Proof.
   intros Hst n h x c. unfold blk_fast. destruct (blk_guard x) eqn:G; [|discriminate].
-  destruct (guard_facts x G) as (Gb & Gn). cbv zeta. intros H. destruct (blk_out_some _ _ _ H) as (Hp & -> & _).
+  destruct (guard_facts x G) as (Gb & Gn). cbv zeta. intros H. destruct (blk_out_some _ _ _ H) as (Hp & ->).
   destruct (compress_fast_extState_fastReset_sound (st n) (mem_of_list 0 x) (len x) (len x - 1) (fast_accel level)
               (src_ok_of_list x Gb) (Hst n)) as (_ & HS).
   destruct (HS Hp) as (_ & HV). rewrite load_of_list in HV. apply strict_any_hist. exact HV.
@@ -105,7 +114,7 @@ Qed.
 Theorem blk_mid_contract st : (forall n, hc_ok (st n)) -> blk_contract strict_valid (blk_mid st).
 Proof.
   intros Hst n h x c. unfold blk_mid. destruct (blk_guard x) eqn:G; [|discriminate].
-  destruct (guard_facts x G) as (Gb & Gn). cbv zeta. intros H. destruct (blk_out_some _ _ _ H) as (Hp & -> & _).
+  destruct (guard_facts x G) as (Gb & Gn). cbv zeta. intros H. destruct (blk_out_some _ _ _ H) as (Hp & ->).
   destruct (compress_HC_fastReset_mid_sound (hc_reset_fast (st n)) (mem_of_list 0 x) (len x) (len x - 1)
               (hc_reset_fast_hc_ok _ (Hst n)) (src_ok_of_list x Gb) ltac:(lia) ltac:(lia)) as ((_ & _ & HS) & _).
   destruct (HS Hp) as (_ & _ & _ & _ & HV).
@@ -116,7 +125,7 @@ Qed.
 Theorem blk_hc_contract st level : 3 <= level -> (forall n, cc_ok (st n)) -> blk_contract strict_valid (blk_hc st level).
 Proof.
   intros Hl Hst n h x c. unfold blk_hc. destruct (blk_guard x) eqn:G; [|discriminate].
-  destruct (guard_facts x G) as (Gb & Gn). cbv zeta. intros H. destruct (blk_out_some _ _ _ H) as (Hp & -> & _).
+  destruct (guard_facts x G) as (Gb & Gn). cbv zeta. intros H. destruct (blk_out_some _ _ _ H) as (Hp & ->).
   destruct (compress_HC_fastReset_all_sound (cc_reset_fast (st n)) (mem_of_list 0 x) (len x) (len x - 1) level
               (cc_reset_fast_cc_ok _ (Hst n)) (src_ok_of_list x Gb) ltac:(lia) ltac:(lia) (all_level_ge3 level Hl)) as ((_ & _ & HS) & _).
   destruct (HS Hp) as (_ & _ & _ & _ & HV).
@@ -132,11 +141,35 @@ Proof.
   destruct (level <? 3) eqn:E2; [apply blk_mid_contract; exact Hm | apply blk_hc_contract; [lia | exact Hh]].
 Qed.
 
-Theorem blk_indep_bytes level sf sm sh : blk_bytes (blk_indep level sf sm sh).
+(* the outputs are byte strings: no run-time check, from "the compressors emit bytes" *)
+Theorem blk_fast_bytes st level : (forall n, ctx_ok (st n)) -> blk_bytes (blk_fast st level).
 Proof.
-  intros n h x c. unfold blk_indep, blk_fast, blk_mid, blk_hc.
-  destruct (level <? LZ4HC_CLEVEL_MIN); [|destruct (level <? 3)]; destruct (blk_guard x); try discriminate; cbv zeta;
-    intros H; destruct (blk_out_some _ _ _ H) as (_ & _ & Hb); exact Hb.
+  intros Hst n h x c. unfold blk_fast. destruct (blk_guard x) eqn:G; [|discriminate].
+  destruct (guard_facts x G) as (Gb & Gn). cbv zeta. intros H. destruct (blk_out_some _ _ _ H) as (Hp & ->).
+  exact (compress_fast_extState_fastReset_bytes (st n) (mem_of_list 0 x) (len x) (len x - 1) (fast_accel level)
+           (src_ok_of_list x Gb) (Hst n) Hp).
+Qed.
+
+Theorem blk_mid_bytes st : (forall n, hc_ok (st n)) -> blk_bytes (blk_mid st).
+Proof.
+  intros Hst n h x c. unfold blk_mid. destruct (blk_guard x) eqn:G; [|discriminate].
+  destruct (guard_facts x G) as (Gb & Gn). cbv zeta. intros H. destruct (blk_out_some _ _ _ H) as (Hp & ->).
+  apply compress_HC_fastReset_mid_bytes; [apply hc_reset_fast_hc_ok; apply Hst | apply src_ok_of_list; exact Gb | lia | lia].
+Qed.
+
+Theorem blk_hc_bytes st level : (forall n, cc_ok (st n)) -> blk_bytes (blk_hc st level).
+Proof.
+  intros Hst n h x c. unfold blk_hc. destruct (blk_guard x) eqn:G; [|discriminate].
+  destruct (guard_facts x G) as (Gb & Gn). cbv zeta. intros H. destruct (blk_out_some _ _ _ H) as (Hp & ->).
+  apply compress_HC_fastReset_all_bytes; [apply cc_reset_fast_cc_ok; apply Hst | apply src_ok_of_list; exact Gb | lia | lia].
+Qed.
+
+Theorem blk_indep_bytes level sf sm sh :
+  (forall n, ctx_ok (sf n)) -> (forall n, hc_ok (sm n)) -> (forall n, cc_ok (sh n)) ->
+  blk_bytes (blk_indep level sf sm sh).
+Proof.
+  intros Hf Hm Hh. unfold blk_indep. destruct (level <? LZ4HC_CLEVEL_MIN); [apply blk_fast_bytes; exact Hf|].
+  destruct (level <? 3); [apply blk_mid_bytes; exact Hm | apply blk_hc_bytes; exact Hh].
 Qed.
 
 (* ---- the states reached by a session form such an oracle ---- *)
